@@ -4,8 +4,8 @@ package main
 
 import (
 	"fmt"
-	"os"
 	"net"
+	"os"
 	"reflect"
 	"sync/atomic"
 	"time"
@@ -27,7 +27,8 @@ type c20RTCase struct {
 	RealTime bool
 	Waiters  []int
 	Requests []int
-	IdleMs   int `json:",omitempty"` // how long the waiters are left alone before the first request
+	IdleMs   int   `json:",omitempty"` // how long the waiters are left alone before the first request
+	HangUps  []int `json:",omitempty"` // indices of waiters whose client closes its connection once all have registered: nobody else is released by that
 }
 
 const (
@@ -53,6 +54,10 @@ func c20RealTime(c *ev.Ctx, full bool) {
 		return o
 	}
 	if full {
+		for _, code := range []int{11, 33} { // clients that give up waiting: the others wait on
+			cases = append(cases, c20RTCase{Waiters: []int{code, code}, HangUps: []int{0}, Requests: []int{code}}, c20RTCase{Waiters: []int{code, code, code + 1}, HangUps: []int{1, 2}, Requests: []int{code + 1, code}},
+				c20RTCase{Waiters: []int{code, code, code, code}, HangUps: []int{3, 1}, Requests: []int{32, code}})
+		}
 		for _, p := range [][2]int{{32, 33}, {33, 32}, {17, 18}, {18, 17}, {0, 1}, {39, 38}, {20, 21}} {
 			k, adj := p[0], p[1]
 			for _, n := range []int{1, 2, 4, 5, 6, 9} {
@@ -71,6 +76,7 @@ func c20RealTime(c *ev.Ctx, full bool) {
 		cases = []c20RTCase{
 			{Waiters: append([]int{33}, rep(32, 5)...), Requests: []int{33, 32}},
 			{Waiters: []int{11, 11, 19}, Requests: []int{19, 11}},
+			{Waiters: []int{11, 11, 11}, HangUps: []int{1}, Requests: []int{32, 11}},
 			{Waiters: []int{40, 35}, Requests: []int{11, 35}, IdleMs: 6000}, // (a wait request is itself a request with code 35: the waiter on 35 registers last)
 		}
 	}
@@ -146,13 +152,14 @@ func c20RTRun(k c20RTCase) (key, desc string) {
 		}()
 		time.Sleep(60 * time.Millisecond) // registration order = listed order
 	}
+	gone := map[int]bool{} // waiters whose client hung up
 	// awaitReleased waits until every waiter selected by must is released
 	awaitReleased := func(must func(*waiter) bool, what string) (string, string) {
 		deadline := time.Now().Add(c20RTRelease)
 		for {
 			missing := -1
 			for i, w := range ws {
-				if must(w) && !w.released.Load() {
+				if must(w) && !w.released.Load() && !gone[i] {
 					missing = i
 				}
 			}
@@ -185,6 +192,18 @@ func c20RTRun(k c20RTCase) (key, desc string) {
 			return "C20:released-without-matching-request", fmt.Sprintf("waiter %d on code %d was released %v after registering although no request at all had been sent", i, w.code, idle)
 		}
 	}
+	for _, h := range k.HangUps {
+		// this client gives up waiting and closes its connection; that is no request with any code
+		before := snapshot()
+		gone[h] = true
+		ws[h].ce.Close()
+		time.Sleep(c20RTSettle)
+		for i, w := range ws {
+			if !gone[i] && w.code < 40 && !before[i] && w.released.Load() {
+				return "C20:released-without-matching-request", fmt.Sprintf("waiter %d on code %d was released when the client of waiter %d (code %d) closed its connection; no request with that code was received", i, w.code, h, ws[h].code)
+			}
+		}
+	}
 	sender := connect()
 	defer sender.Close()
 	for _, r := range k.Requests {
@@ -214,7 +233,7 @@ func c20RTRun(k c20RTCase) (key, desc string) {
 		}
 	}
 	for i, w := range ws {
-		if w.released.Load() {
+		if w.released.Load() && !gone[i] {
 			if resp, _ := w.resp.Load().(string); resp != "SUCCESS" {
 				return "C20:wrong-wait-response", fmt.Sprintf("released waiter %d received %q, want SUCCESS", i, resp)
 			}
